@@ -47,6 +47,8 @@ class Host:
         cmd = ["cargo", "build", "--offline", "--target-dir", self.target, "--message-format=json"]
         if self.features:
             cmd += ["--features", self.features]
+        if self.features == "nostd":
+            cmd += ["--no-default-features"]
         r = subprocess.run(cmd, cwd=HOST, env=ENV, stdout=subprocess.PIPE, stderr=subprocess.PIPE, text=True)
         if r.returncode != 0:
             log(r.stderr[-4000:])
